@@ -709,7 +709,11 @@ func (x *Exec) evalCall(env *SpecEnv, c *ast.CallExpr) specVal {
 			// the function under verification (Name__2: the second such call in block order). Only
 			// meaningful on paths that executed the call: guard it with the branch condition.
 			nm, ok := c.Args[0].(*ast.Ident)
-			if !ok || env.fr == nil || len(c.Args) != 2 {
+			rfr := env.fr
+			if rfr == nil {
+				rfr = env.callerFrame // call-site / access contracts: calls of the function containing the site
+			}
+			if !ok || rfr == nil || len(c.Args) != 2 {
 				return env.fail("$ret needs (Name, i) inside a function")
 			}
 			iv := x.evalSpec(env, c.Args[1])
@@ -724,7 +728,7 @@ func (x *Exec) evalCall(env *SpecEnv, c *ast.CallExpr) specVal {
 				}
 			}
 			n := 0
-			for _, b := range env.fr.fn.Blocks {
+			for _, b := range rfr.fn.Blocks {
 				for _, ins := range b.Instrs {
 					call, ok := ins.(*ssa.Call)
 					if !ok {
@@ -744,20 +748,27 @@ func (x *Exec) evalCall(env *SpecEnv, c *ast.CallExpr) specVal {
 						continue
 					}
 					if tup, ok := call.Type().(*types.Tuple); ok {
-						ts, done := env.fr.tuples[call]
+						ts, done := rfr.tuples[call]
+						if idx >= tup.Len() {
+							return env.fail("$ret(%s, %d): the call has %d results", nm.Name, idx, tup.Len())
+						}
 						if !done || idx >= len(ts) {
-							return env.fail("$ret(%s): call not executed on any path yet", nm.Name)
+							// the call exists but lies after this point on every path: unconstrained
+							return specVal{term: x.vc.freshConst("ret_later", x.vc.sortOf(tup.At(idx).Type())), typ: tup.At(idx).Type()}
 						}
 						return specVal{term: ts[idx], typ: tup.At(idx).Type()}
 					}
-					v, done := env.fr.vals[call]
-					if !done || idx != 0 {
-						return env.fail("$ret(%s): call not executed on any path yet", nm.Name)
+					if idx != 0 {
+						return env.fail("$ret(%s, %d): the call has one result", nm.Name, idx)
+					}
+					v, done := rfr.vals[call]
+					if !done {
+						return specVal{term: x.vc.freshConst("ret_later", x.vc.sortOf(call.Type())), typ: call.Type()}
 					}
 					return specVal{term: v, typ: call.Type()}
 				}
 			}
-			return env.fail("$ret: no call of %s in %s", nm.Name, env.fr.fn.Name())
+			return env.fail("$ret: no call of %s in %s", nm.Name, rfr.fn.Name())
 		case "G_unbox":
 			v := x.evalSpec(env, c.Args[0])
 			ty := x.resolveTypeExpr(c.Args[1], env.pkg)
